@@ -309,7 +309,7 @@ func groupMismatches(dom []int64, want, got func(int64) string) []mismatch {
 
 // T-DISPATCH: the first action of tokenize for every rune equals the
 // specification's token table.
-func ruleDispatch(c *Ctx) *RuleResult {
+func ruleDispatchOld(c *Ctx) *RuleResult {
 	r := &RuleResult{Doc: "tokenize's dispatch, folded for every rune of the domain, equals the lexical grammar: identifier start [A-Za-z_], ten single-character tokens, numbers, the four bracket/quote scanners, six two-character operator families, whitespace {space,tab,LF,CR} skipped without effect, EOF finishes with tEOF, every other rune is an unknown-character error", Floor: 128}
 	fn := c.A.Tokenize
 	calls := callsTo(fn, c.lexerNext())
@@ -363,7 +363,7 @@ func ruleDispatch(c *Ctx) *RuleResult {
 }
 
 // T-SCAN: the continue predicates of the identifier and number scanners.
-func ruleScanLoops(c *Ctx) *RuleResult {
+func ruleScanLoopsOld(c *Ctx) *RuleResult {
 	r := &RuleResult{Doc: "identifier scanner continues exactly on [A-Za-z0-9_], number scanner exactly on [0-9]; for every rune the predicate neither panics (mask index in range) nor depends on anything but the rune", Floor: 2}
 	dom := runeDomain(c.Tier)
 	type scan struct {
